@@ -133,7 +133,7 @@ func SynthFiles(seed uint64, n int) []File {
 		}
 		_ = rec
 		cr3 := BuildCR3(r, CR3Parts{CMT1: mk(rec2.IFD0), CMT2: mk(rec2.Exif), CMT3: mk(&Dir{Kind: KOther}), CMT4: mk(rec2.GPS), XMP: xmp,
-			Preview: append([]byte{0xFF, 0xD8}, r.Bytes(r.Range(100, 5000))...), PrvwW: 1620, PrvwH: 1080}, 1, i%3 == 2)
+			Preview: append([]byte{0xFF, 0xD8}, r.Bytes(r.Range(100, 5000))...), PrvwW: 1620, PrvwH: 1080, CTBOOver: (i % 2) * 3}, 1, i%3 == 2)
 		add("synth/cr3-"+sfx, cr3.Bytes)
 		add("synth/heif-"+sfx, BuildHEIF(r, tiff, i))
 		add("synth/xmp-"+sfx, xmp)
